@@ -110,15 +110,16 @@ def classify(c, live):
     return "VIOLATION", "raises / returns a non-number on an input whose mathematical value is defined"
 
 
-def coq_expected(c, verdict, live):
-    """The right-hand side of the generated Example, or 'skip'."""
+def coq_expected(c, verdict, live, repaired):
+    """The right-hand side of the generated Example, or 'skip'.  `repaired`: finding ids whose method has
+    the repaired body in this tree (the model is then run with cfix / efix = true)."""
     if not H.coq_eligible(c.f) or verdict in ("VIOLATION", "inconclusive"):
         return "skip"
-    if c.known - live:
-        return "skip"      # that defect was fixed in this tree: the (defect-faithful) model does not apply
+    if c.known - live - repaired:
+        return "skip"      # neither the defective nor the repaired body: T1 reports that method
     real = c.real_direct
     if real.kind == "num":
-        if "permutation-symbol-object" in c.known:
+        if "permutation-symbol-object" in c.known and "permutation-symbol-object" not in repaired:
             return "skip"      # the model over-approximates failure once a UFL object is in flight
         if isinstance(real.value, (int, Fr)) and not isinstance(real.value, bool):
             return Fr(real.value)
@@ -178,6 +179,14 @@ def main(run):
             else:
                 changed.append(name)
     run.extra["methods_in_repaired_form"] = fixed_forms
+    repaired = set()
+    if "Conditional.evaluate" in fixed_forms:
+        repaired.add("conditional-component")
+    if "PermutationSymbol.evaluate" in fixed_forms:
+        repaired.add("permutation-symbol-object")
+    flags = ("true" if "conditional-component" in repaired else "false") + " " + \
+            ("true" if "permutation-symbol-object" in repaired else "false")
+    run.extra["model_flags_cfix_efix"] = flags
     for name in C24_expected.EXPECTED:
         if name not in customs:
             changed.append(name)
@@ -232,11 +241,11 @@ def main(run):
         if i < 3:
             run.sample({"input": str(c.e)[:200], "component": list(c.comp), "real": repr(c.real_call),
                         "expected": repr(c.expected), "verdict": verdict})
-        exp = coq_expected(c, verdict, live)
+        exp = coq_expected(c, verdict, live, repaired)
         if exp != "skip":
             name = f"c{i}"
             try:
-                coq_cases.append((name, H.coq_case(name, c.f, c.comp, c.T, c.mp, c.log, c.x, exp)))
+                coq_cases.append((name, H.coq_case(name, c.f, c.comp, c.T, c.mp, c.log, c.x, exp, flags)))
                 by_name[name] = (seed, depth, i)
             except Exception as ex:      # serializer is fail-closed
                 run.extra.setdefault("not_serialised", collections.Counter())[type(ex).__name__ + ": " + str(ex)[:60]] += 1
